@@ -77,6 +77,10 @@ func genSmallRTx(c *kernel.RunCtx, extended bool) *models.RTx {
 		var in models.RIn
 		copy(in.TxIDWire[:], c.Bytes(32))
 		in.Vout, in.Seq = pickU32(c), pickU32(c)
+		if c.Bool(1, 6) {
+			in.TxIDWire, in.Vout = [32]byte{}, 0xffffffff // the null outpoint (coinbase pattern)
+			c.Count("probe.null_outpoint_input", 1)
+		}
 		in.Script = c.Bytes(sl())
 		if extended {
 			in.PrevSats = pickU64(c)
@@ -275,6 +279,9 @@ func (w *c09World) Run(c *kernel.RunCtx) {
 	ntx := 1
 	if container > 0 {
 		ntx = c.Range(1, 3)
+		if container == 2 && c.Bool(1, 3) {
+			ntx = c.Range(4, 7) // several genuine transactions behind the count
+		}
 	}
 	c.End()
 	var txs []*models.RTx
@@ -591,6 +598,38 @@ func (w *c09World) bigBlockThenForgedCount(c *kernel.RunCtx) {
 	}
 	l = nil
 	c.Count("probe.million_tx_block_decoded", 1)
+	// the same for fields: a genuine 12 MiB script is decoded, then short inputs claim 9 and 11 MiB
+	bigTx := &models.RTx{Version: 1, Outs: []models.ROut{{Sats: 1, Script: make([]byte, 12<<20)}}, Ins: []models.RIn{{Script: make([]byte, 12<<20)}}}
+	for _, ext := range []bool{false, true} {
+		if ext {
+			bigTx.Ins[0].PrevScript = make([]byte, 12<<20)
+		}
+		enc, _ := bigTx.Encode(ext, nil)
+		tx := &bt.Tx{}
+		c.Exec()
+		if pn := catch(func() { _, err = tx.ReadFrom(kernel.NewStream(enc, kernel.Plan{})) }); pn != "" || err != nil {
+			c.Fail("decode", "Tx.ReadFrom", "a genuine transaction with 12 MiB scripts was not decoded: panic=%q err=%v", pn, err)
+			return
+		}
+	}
+	c.Count("probe.huge_script_decoded", 1)
+	small := &models.RTx{Version: 1, Ins: []models.RIn{{Script: []byte{1}, PrevScript: []byte{2}}}, Outs: []models.ROut{{Script: []byte{3}}}}
+	for _, ext := range []bool{false, true} {
+		enc, fs := small.Encode(ext, nil)
+		for _, f := range fs {
+			if !strings.HasSuffix(f.Name, "_len") {
+				continue
+			}
+			for _, claim := range []uint64{9 << 20, 11 << 20} {
+				mut := append(append(append([]byte(nil), enc[:f.Off]...), models.VarInt(claim)...), enc[f.Off+f.Len:]...)
+				r := runBinary(c, epTxReadFrom, mut, kernel.Plan{Kind: 3, Seed: claim}, -1, -1, false, true)
+				judge(c, r, fmt.Sprintf("len@%s:=%d MiB after genuine 12 MiB scripts were decoded in this process", f.Name, claim>>20), true, false, true)
+				if c.Failed() {
+					return
+				}
+			}
+		}
+	}
 	for _, claim := range []uint64{uint64(n), 1 << 21, 1 << 24} {
 		forged := append(models.VarInt(claim), one...)
 		r := runBinary(c, epTxsReadFrom, forged, kernel.Plan{Kind: 1}, -1, -1, false, true)
@@ -842,7 +881,7 @@ func clip(s string, n int) string {
 	return s
 }
 
-var jsonMutNames = []string{"delete", "null", "wrong-type", "non-hex", "odd-hex", "array-null", "negative", "huge-number", "empty-object", "long-hex", "short-hex", "empty-string", "very-long-hex", "fraction-9", "fraction-padded", "tiny-exp", "huge-exp", "neg-fraction"}
+var jsonMutNames = []string{"delete", "null", "wrong-type", "non-hex", "odd-hex", "array-null", "negative", "huge-number", "empty-object", "long-hex", "short-hex", "empty-string", "very-long-hex", "fraction-9", "fraction-padded", "tiny-exp", "huge-exp", "neg-fraction", "int-2^24", "int-2^31", "int-2^62", "int-maxint64", "int-minint64"}
 
 // jsonPaths lists every path of a document in a deterministic order.
 func jsonPaths(v interface{}, prefix []string) [][]string {
@@ -994,6 +1033,11 @@ func jsonMutate(doc interface{}, p []string, mk int) (interface{}, bool) {
 			return nil, false
 		}
 		set(json.RawMessage([]string{"0.123456789", "12.500000000", "1e-9", "1e400", "-0.00000001"}[mk-13]), false)
+	case 18, 19, 20, 21, 22:
+		if !isNum {
+			return nil, false
+		}
+		set(json.RawMessage([]string{"16777216", "2147483648", "4611686018427387904", "9223372036854775807", "-9223372036854775808"}[mk-18]), false)
 	}
 	return root, true
 }
